@@ -18,7 +18,10 @@ EXPLANATION = (
     "free variable that its factory bound to a mutable container (hoisting), every container it returns is created by an "
     "expression evaluated inside the closure body on each call, and container closures never return the argument itself. "
     "(3) Generated programs (tier G): the same two rules on the emitted model loaders/dumpers; extras are copied item-wise "
-    "into a dict created in the body; factory defaults are calls in the body, namespace constants are never mutated."
+    "into a dict created in the body; factory defaults are calls in the body, namespace constants are never mutated; a "
+    "default on the absent path never refers to a namespace container (shared or shallowly copied); module-level helpers "
+    "the programs call are analysed with holder/tainted parameter modes for in-place modification of what they are given. "
+    "(4) No functools memo in front of a function that processes user data."
 )
 RULE = "one evaluation = one closure (mutation rule) / one returned or filled container (freshness rule) / one program"
 ASSUMPTIONS = ["sharing through values the documentation says are passed as is (Any, object, as-is loaders) is allowed",
